@@ -1,6 +1,9 @@
 import PV.C03.Escapes
 import PV.C03.Lemmas
 import PV.C03.LexGlobal
+import PV.C03.FScan
+import PV.C03.ErrConv
+import PV.C05.Thm
 import PV.Lexer.Lemmas
 /-
   C03 — property theorems (string-literal side).  Helper lemmas live in `PV/C03/Lemmas.lean`; the
@@ -13,7 +16,12 @@ import PV.Lexer.Lemmas
   `parse_unicode_literal`  : `unicodeLiteral_no_overflow`, `unicodeLiteral_acc_lt`,
                              `unicodeLiteral_char_valid`, `unicodeLiteral_err_offset`
   `parse_unicode_name`     : `unicodeName_guard`, `unicodeName_err_offset`
-  f-string scanner         : `fstring_depth_le_two`, `fstring_terminates`, `fstring_err_offset`
+  f-string scanner, skeleton over `{ } : x` with the expression check (`PV.C03.fstr` …):
+                             `fskel_depth_le_two`, `fskel_terminates`, `fskel_err_offset`
+  f-string scanner, FULL alphabet (C07's model `PV.C07.parseFString`, imported):
+                             `fstring_terminates`, `fstring_no_panic`, `fstring_err_offset`,
+                             `fstring_field_starts`, `fstring_depth_guard`,
+                             `fstring_err_offset_in_source`, `fstring_err_offset_crlf_fails`
 
   Lexer side (second half of the file), over the shared model `PV.Lexer` of `parser/src/lexer.rs` +
   `soft_keywords.rs`, for every source text, mode, start offset and every instantiation of the
@@ -182,17 +190,17 @@ example : parseUnicodeName (fun _ => some 0x2002) 3 ([123] ++ List.replicate 89 
 
 example : parseUnicodeName (fun _ => none) 3 [123, 65, 125] = .err 4 := by decide
 
-theorem fstring_depth_le_two (pos : Nat) (s : List Sym) : (parseFstringBody pos s).dmax ≤ 2 :=
+theorem fskel_depth_le_two (pos : Nat) (s : List Sym) : (parseFstringBody pos s).dmax ≤ 2 :=
   (depth_inv (fuelFor s)).1 0 pos 0 s (by omega) (by omega)
 
-theorem fstring_terminates (pos : Nat) (s : List Sym) (d : Nat) : parseFstringBody pos s ≠ .oof d := by
+theorem fskel_terminates (pos : Nat) (s : List Sym) (d : Nat) : parseFstringBody pos s ≠ .oof d := by
   have := (fuel_inv (fuelFor s)).1 0 pos 0 s (by unfold fuelFor; omega)
   intro h
   unfold parseFstringBody at h
   rw [h] at this
   exact this
 
-theorem fstring_err_offset (pos : Nat) (s : List Sym) (o d : Nat)
+theorem fskel_err_offset (pos : Nat) (s : List Sym) (o d : Nat)
     (h : parseFstringBody pos s = .err o d) : pos ≤ o ∧ o ≤ pos + s.length := by
   have := ((pos_inv (fuelFor s)).1 0 pos 0 s).1
   unfold parseFstringBody at h
@@ -205,6 +213,333 @@ example : parseFstringBody 2 [.lb, .x, .colon, .lb, .x, .colon, .lb, .x, .rb, .r
 example : parseFstringBody 2 [.lb, .x, .colon, .lb, .x, .rb, .rb] = .ok [] 9 1 := by decide +kernel
 /-- `f"{x:"` — unclosed field reported at the end of the body -/
 example : parseFstringBody 2 [.lb, .x, .colon] = .err 5 0 := by decide +kernel
+
+/-! ## the f-string scanner over its full alphabet
+
+The model is `PV.C07.parseFString` (`parse_fstring` / `parse_formatted_value` / `parse_spec` with quotes,
+`!`, `=`, `(` `[` `{` delimiters, escapes, raw and non-raw kinds; tied to string.rs by C07's streams
+and by C03's `fscan` stream).  `lookup` is `unicode_names2::character`, `kind` the `StringKind`, `body`
+the token value as scalar values, `loc` the byte offset of its first character
+(`start + prefix_len + 1 | 3`).  Nothing is assumed about `lookup`, `kind`, `body` or `loc`.
+
+The model's error kind `.panic` stands for: one of the three loops running out of fuel, `parse_octet`'s
+`self.next_char().unwrap()` / `u32::from_str_radix(..).unwrap()` / `char::from_u32(..).unwrap()`, and
+`parse_unicode_literal`'s checked `p += d << ((literal_number - i) * 4)`.  The remaining panic sites of
+the scanner are arithmetic on `location`: `self.location += c.text_len()` (bounded by
+`fstring_err_offset` / `fstring_field_starts`: every position reached is at most `loc + utf8Len body`,
+the end of the token minus its closing quotes) and `location - TextSize::from(1)` in
+`parse_fstring_expr` (`fstring_field_starts`: `location ≥ loc ≥ 1`). -/
+
+/-- **(i) termination**: the fuel `2·|body| + 1` — every loop iteration consumes a character except
+    the call `parse_spec → parse_fstring` on a `{`, which is paid by the `{` — gives an answer that
+    is not the out-of-fuel value, and no larger fuel changes it (in particular `fuelFor body`, the
+    fuel `parseFString` runs with). -/
+theorem fstring_terminates (lookup : List Nat → Option Nat) (kind : PV.C06.Kind) (body : List Nat) (loc : Nat) :
+    (∀ e, PV.C07.fstringLoop lookup kind (2 * body.length + 1) 0 [] [] body loc = .error e → e.kind ≠ .panic) ∧
+    ∀ fuel, 2 * body.length + 1 ≤ fuel →
+      PV.C07.fstringLoop lookup kind fuel 0 [] [] body loc =
+        PV.C07.fstringLoop lookup kind (2 * body.length + 1) 0 [] [] body loc := by
+  have hg := ((PV.FScan.scan_good lookup kind body loc (2 * body.length + 1)).2.2 0 [] [] body loc (Nat.le_refl _)
+    ⟨[], rfl, by simp [PV.C06.utf8Len]⟩ PV.FScan.FOk.nil).good
+  have hnp : PV.FScan.NoPanic (PV.C07.fstringLoop lookup kind (2 * body.length + 1) 0 [] [] body loc) := by
+    intro e he
+    rw [he] at hg
+    exact hg.1
+  exact ⟨hnp, PV.FScan.fs_mono_le lookup kind _ 0 [] [] body loc hnp⟩
+
+/-- `parseFString` is the loop at the sufficient fuel -/
+theorem parseFString_eq (lookup : List Nat → Option Nat) (kind : PV.C06.Kind) (body : List Nat) (loc : Nat) :
+    PV.C07.parseFString lookup kind body loc =
+      match PV.C07.fstringLoop lookup kind (2 * body.length + 1) 0 [] [] body loc with
+      | .error e => .error e
+      | .ok (ps, _, _) => .ok ps := by
+  unfold PV.C07.parseFString
+  rw [(fstring_terminates lookup kind body loc).2 _ (by unfold PV.C07.fuelFor; omega)]
+  rfl
+
+/-- **(ii) no panic**: for every body, `StringParser::parse` of an f-string never reaches a failing
+    `unwrap` / `char::from_u32(..).unwrap()` / checked `u32` operation of the escape decoder and
+    never runs out of fuel: the model never answers `.panic`. -/
+theorem fstring_no_panic (lookup : List Nat → Option Nat) (kind : PV.C06.Kind) (body : List Nat) (loc : Nat)
+    (e : PV.C06.Err) (h : PV.C07.parseFString lookup kind body loc = .error e) : e.kind ≠ .panic := by
+  rw [parseFString_eq] at h
+  split at h
+  · rename_i e' he
+    cases h
+    exact (fstring_terminates lookup kind body loc).1 e he
+  · cases h
+
+/-- **(iii) error offsets**: an error of the scanner is located at `loc` plus the UTF-8 length of a
+    prefix of the token value — between the first character of the body and its end, on a character
+    boundary of the VALUE.  (`fstring_err_offset_in_source`: for a literal without CR that is a
+    character boundary of the source file inside the token; `fstring_err_offset_crlf_fails`: with a
+    CR LF inside the literal it need not be — the listed finding.) -/
+theorem fstring_err_offset (lookup : List Nat → Option Nat) (kind : PV.C06.Kind) (body : List Nat) (loc : Nat)
+    (e : PV.C06.Err) (h : PV.C07.parseFString lookup kind body loc = .error e) :
+    (∃ pre suf, body = pre ++ suf ∧ e.loc = loc + PV.C06.utf8Len pre) ∧
+    loc ≤ e.loc ∧ e.loc ≤ loc + PV.C06.utf8Len body := by
+  have hg := ((PV.FScan.scan_good lookup kind body loc (2 * body.length + 1)).2.2 0 [] [] body loc (Nat.le_refl _)
+    ⟨[], rfl, by simp [PV.C06.utf8Len]⟩ PV.FScan.FOk.nil).good
+  rw [parseFString_eq] at h
+  split at h
+  · rename_i e' he
+    cases h
+    rw [he] at hg
+    obtain ⟨pre, suf, e1, e2⟩ := hg.2
+    refine ⟨⟨pre, suf, e1, e2⟩, by omega, ?_⟩
+    rw [e2, e1, PV.C07.utf8Len_append]; omega
+  · cases h
+
+/-- **field starts**: every `location` the scanner hands to `parse_fstring_expr` in a successful scan
+    (nested fields included) is `loc` plus the UTF-8 length of a prefix of the value; so
+    `location - 1` cannot underflow when `loc ≥ 1` (it is `start + prefix_len + 1 | 3`), and an
+    `InvalidExpression` error — reported at that `location` — lies inside the literal on a character
+    boundary of the value. -/
+theorem fstring_field_starts (lookup : List Nat → Option Nat) (kind : PV.C06.Kind) (body : List Nat) (loc : Nat)
+    (ps : List PV.C07.Piece) (h : PV.C07.parseFString lookup kind body loc = .ok ps) :
+    ∀ f ∈ PV.C07.fieldsOf ps, (∃ pre suf, body = pre ++ suf ∧ f.2 = loc + PV.C06.utf8Len pre) ∧
+      loc ≤ f.2 ∧ f.2 ≤ loc + PV.C06.utf8Len body := by
+  have hg := ((PV.FScan.scan_good lookup kind body loc (2 * body.length + 1)).2.2 0 [] [] body loc (Nat.le_refl _)
+    ⟨[], rfl, by simp [PV.C06.utf8Len]⟩ PV.FScan.FOk.nil).good
+  rw [parseFString_eq] at h
+  split at h
+  · cases h
+  · rename_i ps' r l he
+    cases h
+    rw [he] at hg
+    intro f hf
+    obtain ⟨pre, suf, e1, e2⟩ := hg.2.2 f hf
+    refine ⟨⟨pre, suf, e1, e2⟩, by omega, ?_⟩
+    rw [e2, e1, PV.C07.utf8Len_append]; omega
+
+/-- **(iv) recursion depth**: `parse_fstring` entered with `nested ≥ 2` returns
+    `ExpressionNestedTooDeeply` at once, without reading a character or calling anything.  `nested`
+    grows only by the `+ 1` of `parse_spec → parse_fstring`, so the deepest call chain is
+    `parse_fstring(0) → parse_formatted_value(0) → parse_spec(0) → parse_fstring(1) →
+     parse_formatted_value(1) → parse_spec(1) → parse_fstring(2)`: two levels of nested format
+    specs, for every alphabet.  (`fskel_depth_le_two` states the same with an instrumented
+    maximum over the skeleton.) -/
+theorem fstring_depth_guard (lookup : List Nat → Option Nat) (kind : PV.C06.Kind) (fuel nested : Nat) (hn : 2 ≤ nested)
+    (values : List PV.C07.Piece) (content cs : List Nat) (loc : Nat) :
+    PV.C07.fstringLoop lookup kind (fuel + 1) nested values content cs loc =
+      .error ⟨.fstring .expressionNestedTooDeeply, loc⟩ := by
+  rw [PV.C07.fstringLoop.eq_def]
+  simp [hn, PV.C07.ferr]
+
+-- non-vacuity: f"{a!x}" → InvalidConversionFlag after the `x` (byte 6); f"{x:{x:{x}}}" → too deep at byte 8;
+-- f"{'a" → unterminated string at the end; f"\N{}" (escape error inside the scanner)
+example : PV.C07.parseFString (fun _ => none) .fstr [123, 97, 33, 120, 125] 2 = .error ⟨.fstring .invalidConversionFlag, 6⟩ := by
+  with_unfolding_all rfl
+example : PV.C07.parseFString (fun _ => none) .fstr [123, 120, 58, 123, 120, 58, 123, 120, 125, 125, 125] 2
+    = .error ⟨.fstring .expressionNestedTooDeeply, 8⟩ := by with_unfolding_all rfl
+example : PV.C07.parseFString (fun _ => none) .fstr [123, 39, 97] 2 = .error ⟨.fstring .unterminatedString, 5⟩ := by
+  with_unfolding_all rfl
+example : PV.C07.parseFString (fun _ => none) .fstr [92, 78, 123, 125] 2 = .error ⟨.unicodeError, 5⟩ := by
+  with_unfolding_all rfl
+example : PV.C07.fieldsOf [.field [120] 3 .none (some [.field [119] 6 .none none])] = [([120], 3), ([119], 6)] := by
+  simp [PV.C07.fieldsOf, PV.C07.pieceFields]
+
+/-- **(iii) in the source file**: let the file be `before ++ inp` and let the shared lexer model's
+    `lex_identifier` return at `inp` a string token `(value, k, triple)` of `n` characters, none of
+    them a CR.  Then an error of the f-string scanner on that token is located on a character boundary
+    of the FILE, between the token's first byte and the end of its last character. -/
+theorem fstring_err_offset_in_source (up : PV.Lexer.UParams) (lookup : List Nat → Option Nat)
+    (before inp value : List Nat) (k : PV.Lexer.StringKind) (triple : Bool) (n : Nat)
+    (hlex : PV.Lexer.lexIdentifier up inp = .ok (.string value k triple, n))
+    (hcr : ∀ x ∈ inp.take n, x ≠ 13) (e : PV.C06.Err)
+    (h : PV.C07.parseFString lookup (PV.C07.kindOf k) value
+          (PV.C06.utf8Len before + k.prefixLen + (if triple then 3 else 1)) = .error e) :
+    (∃ pre suf, before ++ inp = pre ++ suf ∧ e.loc = PV.C06.utf8Len pre) ∧
+    PV.C06.utf8Len before ≤ e.loc ∧ e.loc ≤ PV.C06.utf8Len (before ++ inp.take n) := by
+  obtain ⟨⟨pre, suf, e1, e2⟩, _, _⟩ := fstring_err_offset lookup _ value _ e h
+  obtain ⟨hls, hascii, q, hq1, hq2⟩ := PV.C07.lexIdentifier_string up inp value k triple n hlex
+  obtain ⟨_, hlen, q', hq', hn, htake⟩ := PV.C07.lexString_noCR k inp value k triple n hls hcr
+  have : q' = q := by rw [hq1] at hq'; cases hq'; rfl
+  subst this
+  have hsplit : inp = inp.take n ++ inp.drop n := (List.take_append_drop n inp).symm
+  have hc : PV.C06.utf8Len (PV.C07.closing q' triple) = if triple then 3 else 1 := by
+    have hcs : PV.C06.csize q' = 1 := by rcases hq2 with rfl | rfl <;> rfl
+    unfold PV.C07.closing
+    cases triple <;> simp [PV.C06.utf8Len, hcs]
+  have hloc : e.loc = PV.C06.utf8Len (before ++ inp.take k.prefixLen ++ PV.C07.closing q' triple ++ pre) := by
+    rw [e2, PV.C07.utf8Len_append, PV.C07.utf8Len_append, PV.C07.utf8Len_append,
+      PV.C07.utf8Len_ascii _ hascii, hc]
+    simp; omega
+  refine ⟨⟨before ++ inp.take k.prefixLen ++ PV.C07.closing q' triple ++ pre,
+    suf ++ PV.C07.closing q' triple ++ inp.drop n, ?_, hloc⟩, ?_, ?_⟩
+  · conv => lhs; rw [hsplit, htake, e1]
+    simp
+  · rw [hloc]; simp only [PV.C07.utf8Len_append]; omega
+  · rw [hloc, htake, e1]; simp only [PV.C07.utf8Len_append]; omega
+
+/-- **the CR LF caveat** (listed finding `string-literal-crlf-error-offset-short`):
+    `f'''\r\n{a!é}'''` — the lexer folds the CR LF to LF in the token value, the scanner reports
+    `InvalidConversionFlag` at `4 + utf8Len "\n{a!é" = 10`, but in the source the `é` occupies bytes
+    9..11 (the first 9 characters have 9 bytes, the first 10 have 11): offset 10 is one byte short and
+    inside the two-byte character. -/
+theorem fstring_err_offset_crlf_fails :
+    PV.Lexer.lexIdentifier ⟨fun _ => false, fun _ => false, fun _ => false⟩ [102, 39, 39, 39, 13, 10, 123, 97, 33, 233, 125, 39, 39, 39]
+      = .ok (.string [10, 123, 97, 33, 233, 125] .fstring true, 14) ∧
+    PV.C07.parseFString (fun _ => none) .fstr [10, 123, 97, 33, 233, 125] 4
+      = .error ⟨.fstring .invalidConversionFlag, 10⟩ ∧
+    PV.C06.utf8Len (([102, 39, 39, 39, 13, 10, 123, 97, 33, 233, 125, 39, 39, 39] : List Nat).take 9) = 9 ∧
+    PV.C06.utf8Len (([102, 39, 39, 39, 13, 10, 123, 97, 33, 233, 125, 39, 39, 39] : List Nat).take 10) = 11 :=
+  ⟨by rfl, by with_unfolding_all rfl, by decide, by decide⟩
+
+/-! ## the conversion of LALRPOP's errors (`parse_error_from_lalrpop`, `not_before`, the start marker)
+
+Model: `PV/C03/ErrConv.lean`.  Tie: the `errconv` stream (the driver recomputes the public
+`ParseError` of `parse_starts_at` from the reconstructed `lalrpop_util::ParseError` and evaluates
+`reports` on the real token stream). -/
+
+section ErrConv
+open PV.C03.ErrConv
+
+/-- the clamp makes the lower bound unconditional: whatever the LR driver reports, `parse_starts_at`
+    never returns an offset below the start offset -/
+theorem errconv_lower_bound (k : Nat) (e : Lalr) : k ≤ (parseStartsAtErr k e).offset := by
+  unfold parseStartsAtErr notBefore
+  split
+  · exact Nat.le_refl _
+  · omega
+
+/-- the location the conversion reads out of a variant -/
+def lalrLoc : Lalr → Nat
+  | .invalidToken location => location
+  | .unrecognizedEof location _ => location
+  | .unrecognizedToken l _ _ _ => l
+  | .extraToken l _ _ => l
+  | .user _ location => location
+
+theorem fromLalrpop_offset (e : Lalr) : (fromLalrpop e).offset = lalrLoc e := by
+  cases e with
+  | unrecognizedEof loc exp => simp only [fromLalrpop, lalrLoc]; split <;> rfl
+  | _ => rfl
+
+/-- the offset `parse_starts_at` reports: the variant's location, clamped from below by the start offset -/
+theorem errconv_offset_eq (k : Nat) (e : Lalr) : (parseStartsAtErr k e).offset = max (lalrLoc e) k := by
+  unfold parseStartsAtErr notBefore
+  rw [fromLalrpop_offset]
+  split
+  · simp only; omega
+  · rw [fromLalrpop_offset]; omega
+
+theorem getLast?_mem {α : Type} : ∀ (l : List α) (a : α), l.getLast? = some a → a ∈ l := by
+  intro l a h
+  exact List.mem_of_getLast? h
+
+/-- **The parser-stage glue does not misplace an error**: if the items of the token stream lie inside
+    `[k, k + n]` (`n` = byte length of the source: C05's `tokens_in_bounds` for the lexer model) and
+    the stream's `Err` item does too (`lex_err_offset`), then for every variant the LR driver can
+    report on that stream (`reports`: unrecognised / extra token of the stream, end of input after
+    the last item or right after the start marker, the stream's error or an action's error inside an
+    item) the `ParseError` that `parse_starts_at(_, _, _, k)` returns carries an offset in
+    `[k, k + n]`.  The start marker sits at the first item's start, or at 0 when there is none
+    (`markerStart`): that case — an offset below `k` — is what `not_before` repairs. -/
+theorem errconv_offset_in_input (k n : Nat) (toks : List Triple) (lexErr : Option (String × Nat)) (e : Lalr)
+    (htoks : ∀ t ∈ toks, k ≤ t.1 ∧ t.1 ≤ t.2.2 ∧ t.2.2 ≤ k + n)
+    (hlex : ∀ kd loc, lexErr = some (kd, loc) → k ≤ loc ∧ loc ≤ k + n)
+    (hrep : reports toks lexErr e = true) :
+    k ≤ (parseStartsAtErr k e).offset ∧ (parseStartsAtErr k e).offset ≤ k + n := by
+  refine ⟨errconv_lower_bound k e, ?_⟩
+  rw [errconv_offset_eq]
+  have hms : markerStart toks ≤ k + n := by
+    unfold markerStart
+    split
+    · rename_i l t r rest
+      have := htoks (l, t, r) (by simp)
+      simp at this; omega
+    · omega
+  have hloc : lalrLoc e ≤ k + n := by
+    cases e with
+    | invalidToken loc => simp [reports] at hrep
+    | unrecognizedToken l tok r exp =>
+      simp [reports] at hrep
+      have := htoks _ hrep
+      simp at this; simp [lalrLoc]; omega
+    | extraToken l tok r =>
+      simp [reports] at hrep
+      have := htoks _ hrep
+      simp at this; simp [lalrLoc]; omega
+    | unrecognizedEof loc exp =>
+      simp only [reports, decide_eq_true_eq] at hrep
+      simp only [lalrLoc]
+      rw [hrep]
+      split
+      · rename_i t ht
+        have := htoks t (getLast?_mem _ _ ht)
+        omega
+      · exact hms
+    | user kind loc =>
+      simp only [reports, Bool.or_eq_true, decide_eq_true_eq, List.any_eq_true, Bool.and_eq_true] at hrep
+      simp only [lalrLoc]
+      rcases hrep with h | ⟨t, ht, h1, h2⟩
+      · exact (hlex kind loc h).2
+      · have := htoks t ht
+        omega
+  omega
+
+
+/-- … and, except for `User` errors (whose location is the lexer's or an action's), the offset is the
+    start offset itself or the start / end of an item of the stream — a token boundary, hence a
+    character boundary of the source (`PV.C05.tokens_on_boundaries`). -/
+theorem errconv_offset_token_boundary (k : Nat) (toks : List Triple) (lexErr : Option (String × Nat)) (e : Lalr)
+    (hu : ∀ kind loc, e ≠ .user kind loc) (hrep : reports toks lexErr e = true) :
+    (parseStartsAtErr k e).offset = k ∨ ∃ t ∈ toks, (parseStartsAtErr k e).offset = t.1 ∨
+      (parseStartsAtErr k e).offset = t.2.2 := by
+  rw [errconv_offset_eq]
+  by_cases hk : lalrLoc e ≤ k
+  · left; omega
+  · right
+    have hmax : max (lalrLoc e) k = lalrLoc e := by omega
+    rw [hmax]
+    cases e with
+    | invalidToken loc => simp [reports] at hrep
+    | unrecognizedToken l tok r exp =>
+      simp [reports] at hrep
+      exact ⟨_, hrep, Or.inl rfl⟩
+    | extraToken l tok r =>
+      simp [reports] at hrep
+      exact ⟨_, hrep, Or.inl rfl⟩
+    | unrecognizedEof loc exp =>
+      simp only [reports, decide_eq_true_eq] at hrep
+      simp only [lalrLoc] at hk ⊢
+      split at hrep
+      · rename_i t ht
+        exact ⟨t, getLast?_mem _ _ ht, Or.inr hrep⟩
+      · rename_i hnone
+        have : toks = [] := by simpa using hnone
+        subst this
+        simp [markerStart] at hrep
+        omega
+    | user kind loc => exact absurd rfl (hu kind loc)
+
+/-- the conversion itself, variant by variant (what `parse_error_from_lalrpop` builds) -/
+theorem errconv_variants :
+    (∀ loc, fromLalrpop (.invalidToken loc) = ⟨.eof, loc⟩) ∧
+    (∀ loc ex, fromLalrpop (.unrecognizedEof loc ex) =
+      if ex = ["Indent"] then ⟨.lexical "IndentationError", loc⟩ else ⟨.eof, loc⟩) ∧
+    (∀ l t r x, fromLalrpop (.unrecognizedToken l t r [x]) = ⟨.unrecognizedToken t (some x), l⟩) ∧
+    (∀ l t r ex, ex.length ≠ 1 → fromLalrpop (.unrecognizedToken l t r ex) = ⟨.unrecognizedToken t none, l⟩) ∧
+    (∀ l t r, fromLalrpop (.extraToken l t r) = ⟨.extraToken t, l⟩) ∧
+    (∀ kd loc, fromLalrpop (.user kd loc) = ⟨.lexical kd, loc⟩) := by
+  refine ⟨fun _ => rfl, fun _ _ => rfl, fun _ _ _ _ => rfl, ?_, fun _ _ _ => rfl, fun _ _ => rfl⟩
+  intro l t r ex h
+  simp [fromLalrpop, h]
+
+-- non-vacuity.  Expression mode, source `` at start offset 100: no item, the marker at 0, end of input at 0:
+example : reports [] none (.unrecognizedEof 0 ["Name", "Int"]) = true := by decide
+example : parseStartsAtErr 100 (.unrecognizedEof 0 ["Name", "Int"]) = ⟨.eof, 100⟩ := by decide
+-- `x = $` lexed at 400: items x (400..401), = (402..403), then the lexer's error at 405
+example : reports [(400, "Name", 401), (402, "Equal", 403)] (some ("UnrecognizedToken", 405))
+    (.user "UnrecognizedToken" 405) = true := by decide
+example : parseStartsAtErr 400 (.user "UnrecognizedToken" 405) = ⟨.lexical "UnrecognizedToken", 405⟩ := by decide
+-- `def f():` + NEWLINE, then end of input where an indented block must follow
+example : parseStartsAtErr 0 (.unrecognizedEof 9 ["Indent"]) = ⟨.lexical "IndentationError", 9⟩ := by decide
+example : isIndentationError (parseStartsAtErr 0 (.unrecognizedToken 9 "Name" 10 ["Indent"])).error = true := by decide
+example : isIndentationError (parseStartsAtErr 0 (.unrecognizedToken 4 "Indent" 8 ["Name", "Int"])).error = true := by decide
+
+end ErrConv
 
 /-! ## the lexer -/
 
@@ -288,6 +623,51 @@ example : (lex ⟨false, upAscii⟩ .module 4294967290 [120, 32, 61, 32, 49]).ma
 /-- one byte more does not fit: the model answers `none` (the Rust `location +=` overflows) -/
 example : lex ⟨false, upAscii⟩ .module 4294967290 [120, 32, 61, 32, 49, 50] = none := by
   decide +kernel
+/-! ### lexer model + conversion glue -/
+
+section
+open PV.C03.ErrConv
+
+/-- the items the parser is fed, as `(range.start(), variant name, range.end())` -/
+def triplesOf (out : LexOut) : List Triple := out.toks.map (fun t => (t.bs, t.tok.rustName, t.be))
+
+/-- the stream's `Err` item -/
+def lexErrOf (out : LexOut) : Option (String × Nat) :=
+  match out.fin with
+  | .err kind _ bo => some (kind.rustName, bo)
+  | _ => none
+
+/-- **`errconv_offset_in_input` for the lexer model's stream** (`PV.C05.tokens_in_bounds` +
+    `lex_err_offset` discharge its hypotheses): whatever the LR driver reports on the token stream of
+    `src` lexed at start offset `k` — the whole stream, or the stream without comment /
+    non-logical-newline items as `parse_filtered_tokens` filters it —, the error that
+    `parse_starts_at` returns carries an offset in `[k, k + utf8Len src]`. -/
+theorem parse_err_offset_in_input (cfg : Cfg) (hs : cfg.up.Sane) (mode : Mode) (k : Nat) (src : List Nat)
+    (out : LexOut) (h : lex cfg mode k src = some out) (toks : List Triple)
+    (hsub : ∀ t ∈ toks, t ∈ triplesOf out) (e : Lalr) (hrep : reports toks (lexErrOf out) e = true) :
+    k ≤ (parseStartsAtErr k e).offset ∧ (parseStartsAtErr k e).offset ≤ k + utf8Len src := by
+  apply errconv_offset_in_input k (utf8Len src) toks (lexErrOf out) e ?_ ?_ hrep
+  · intro t ht
+    have := hsub t ht
+    unfold triplesOf at this
+    obtain ⟨s, hs1, rfl⟩ := List.mem_map.mp this
+    have hb := PV.C05.tokens_in_bounds hs h s hs1
+    exact ⟨hb.2.2.1, hb.2.2.2.1, hb.2.2.2.2⟩
+  · intro kd loc hl
+    unfold lexErrOf at hl
+    split at hl
+    · rename_i kind co bo hfin
+      simp only [Option.some.injEq, Prod.mk.injEq] at hl
+      obtain ⟨_, rfl⟩ := hl
+      exact (lex_err_offset cfg hs mode k src out h kind co _ hfin).2
+    · cases hl
+
+-- `x =` in module mode at offset 7: the LR driver reports end of input after the last item (NEWLINE at 10..10)
+example : (lex ⟨false, upAscii⟩ .module 7 [120, 32, 61]).map triplesOf
+    = some [(7, "Name", 8), (9, "Equal", 10), (10, "Newline", 10)] := by decide +kernel
+example : reports [(7, "Name", 8), (9, "Equal", 10), (10, "Newline", 10)] none (.unrecognizedToken 10 "Newline" 10 []) = true := by
+  decide
+end
 end Lexer
 
 end PV.C03
